@@ -14,6 +14,7 @@ import (
 
 // Frame is one activation (top-level function or an inlined callee).
 type Frame struct {
+	lockPaths map[string]bool // field paths of the mutexes this function acquires (locksum.go)
 	selectOk Term // the recvOk value of the select being executed
 	sendNonBlocking bool // the send being executed is an arm of a select with a default arm
 	cells map[*ssa.Alloc]cellInfo // captured variables only reachable through non-retained closures (cells.go)
